@@ -5,15 +5,72 @@ from mir import Body, callee_is, callee_def, self_field_of_place, tree_str
 from paths import enumerate_paths, path_ends_in_return, TooManyPaths
 
 # fields whose step is legitimately conditional / absent (one symbol each, reason confirmed by reading)
+# field -> (why a path of next() may skip the step, guard): every skipping path must have taken the guard decision
+# guard = (substring of the switch discriminant, truth value it must have on the skipping path)
 STEP_EXCEPTIONS = {
-    'Integral.window': 'windowless mode (length 0): push guarded by !window.is_empty()',
-    'ADI.window': 'windowless mode (length 0): push guarded by !window.is_empty()',
-    'SWMA.right_window': 'length 1 has no right half: early return when right_window.is_empty()',
-    'SWMA.left_window': 'length 1: the early-return path of next() answers without touching the (single-element) left window',
-    'KaufmanInstance.st_dev': 'stepped iff cfg.filter_period > 1 (a configuration constant): filtering disabled otherwise',
-    'AverageDirectionalIndexInstance.plus_di': 'skipped when the averaged true range is exactly 0, where +DI is undefined',
-    'AverageDirectionalIndexInstance.minus_di': 'skipped when the averaged true range is exactly 0, where -DI is undefined',
+    'Integral.window': ('windowless mode (length 0): push guarded by !window.is_empty()', ('Window::<f64>::is_empty(&*self.window)', True)),
+    'ADI.window': ('windowless mode (length 0): push guarded by !window.is_empty()', ('Window::<f64>::is_empty(&*self.window)', True)),
+    'SWMA.right_window': ('length 1 has no right half: early return when right_window.is_empty()', ('::is_empty(&*self.right_window)', True)),
+    'SWMA.left_window': ('length 1: the early-return path of next() answers without touching the (single-element) left window', ('::is_empty(&*self.right_window)', True)),
+    'KaufmanInstance.st_dev': ('stepped iff cfg.filter_period > 1 (a configuration constant): filtering disabled otherwise', ('Gt(*self.cfg.filter_period, 1)', False)),
+    'AverageDirectionalIndexInstance.plus_di': ('skipped when the averaged true range is exactly 0, where +DI is undefined', ('::next(&*self.tr_ma', True)),
+    'AverageDirectionalIndexInstance.minus_di': ('skipped when the averaged true range is exactly 0, where -DI is undefined', ('::next(&*self.tr_ma', True)),
 }
+
+
+def unguarded_skips(m, b, fp, guard, depth=0):
+    """returning paths of b (following self-helpers) on which component fp is not stepped and the excusing guard decision was not taken"""
+    from paths import PathFacts
+    token, truth = guard
+    site = {}
+    helpers = {}
+    for bi, t in b.calls():
+        sf = _stepper_of_call(b, t)
+        if sf:
+            site[bi] = sf[0]
+            continue
+        res = t['callee'].get('res')
+        if res and res.get('local') and t['args'] and depth < 3:
+            x = b.tree_of_operand(t['args'][0])
+            while x[0] in ('ref', 'deref'):
+                x = x[1]
+            if x[0] == 'arg' and x[1] == 1:
+                hb = m.body_by_id(res['id'])
+                if hb is not None and hb.arg_count >= 1 and hb.local_ty(1).startswith('&mut'):
+                    helpers[bi] = hb
+    bad = []
+    for p in enumerate_paths(b, limit=60000):
+        if not path_ends_in_return(b, p):
+            continue
+        if any(bb in site and site[bb] == fp for bb in p if bb != 'loop'):
+            continue
+        pf = PathFacts(b, p)
+        guarded = False
+        for d, vals, blk, allv in pf.decisions:
+            if token in tree_str(d):
+                is_true = not (vals != 'otherwise' and 0 in vals)
+                if is_true == truth:
+                    guarded = True
+        if guarded:
+            continue
+        hs = []
+        for bb in p:
+            if bb != 'loop' and bb in helpers:
+                cnt = step_counts(m, helpers[bb], [fp], {}, depth + 1).get(fp, {0})
+                if max(cnt) > 0:
+                    hs.append((helpers[bb], cnt))       # a helper that can step this component
+        if hs:
+            if any(0 not in cnt for _, cnt in hs):
+                continue
+            sub = []
+            for hb, cnt in hs:
+                sub.extend(unguarded_skips(m, hb, fp, guard, depth + 1))
+            if not sub:
+                continue
+            bad.extend(sub)
+        else:
+            bad.append('%s: path with decisions [%s]' % (b.defp.rsplit('::', 1)[-1], '; '.join('%s=%s' % (tree_str(d)[:50], v) for d, v, _, _ in pf.decisions[:4])))
+    return bad
 
 
 def _stepper_of_call(body, t):
@@ -125,9 +182,16 @@ def s07_step_once(ctx, only_types=None, rule_id='S07'):
             if adt is None:
                 continue
             short = m.short(i)
-            if only_types and short not in only_types:
+            if only_types and only_types != 'windowed' and short not in only_types:
                 continue
             fields = _stateful_fields(m, adt, method_types)
+            if only_types == 'windowed':
+                # types that own a Window directly, or a windowed running sum (ADI / Integral) next to one: their windows must advance in lock-step
+                def windowed(fl):
+                    d = fl['tyj'].get('def', '') if fl['tyj']['t'] == 'adt' else ''
+                    return d.endswith('core::window::Window') or d.endswith('::ADI') or d.endswith('::Integral')
+                if not any(windowed(fl) for fl in adt['variants'][0]['fields']):
+                    continue
             if not fields:
                 continue
             b = m.body(m.impl_fn_path(i, 'next'))
@@ -153,7 +217,12 @@ def s07_step_once(ctx, only_types=None, rule_id='S07'):
                     continue
                 if key in STEP_EXCEPTIONS and counts <= {0, 1} and 1 in counts:
                     used_exc.add(key)
-                    r.sample({'field': key, 'steps per path': sorted(counts), 'exception': STEP_EXCEPTIONS[key]})
+                    why, guard = STEP_EXCEPTIONS[key]
+                    bad = unguarded_skips(m, b, fp, guard)
+                    if bad:
+                        r.violate(key + '|skipped-outside-exception', 'component %s may legitimately be skipped only when %s; next() also skips it on: %s' % (key, why, bad[0][:200]), b.file, b.line)
+                    else:
+                        r.sample({'field': key, 'steps per path': sorted(counts), 'exception': why, 'guard on every skipping path': '%s is %s' % guard})
                     continue
                 if counts == {0}:
                     r.violate(key + '|never-stepped', 'component %s is never stepped by next(): its window no longer holds the last n of anything' % key, b.file, b.line)
@@ -161,8 +230,12 @@ def s07_step_once(ctx, only_types=None, rule_id='S07'):
                     r.violate(key + '|stepped-%d-times' % max(counts), 'component %s is stepped %s times on some path of next()' % (key, sorted(counts)), b.file, b.line)
                 else:
                     r.violate(key + '|conditionally-stepped', 'component %s is stepped on some paths of next() and skipped on others (%s)' % (key, sorted(counts)), b.file, b.line)
-    r.floor('next functions with stateful components', 60 if not only_types else len(only_types), nfn)
-    r.floor('stateful fields', 150 if not only_types else len(only_types), nfields)
+    if only_types == 'windowed':
+        r.floor('next functions of windowed types', 32, nfn)
+        r.floor('stateful fields', 60, nfields)
+    else:
+        r.floor('next functions with stateful components', 60 if not only_types else len(only_types), nfn)
+        r.floor('stateful fields', 150 if not only_types else len(only_types), nfields)
     r.info.update({'fields': nfields, 'functions': nfn, 'exceptions_used': sorted(used_exc),
                    'stale_exceptions': sorted(set(STEP_EXCEPTIONS) - used_exc) if not only_types else []})
     return r
